@@ -385,44 +385,26 @@ _CALLS = re.compile(r'calls step=(\d+) method=(\S+) expected=(\d+) got=(\d+)')
 _INIT = re.compile(r'init: method=(\S+) expected=(\d+) got=(\d+)')
 
 
-def _stale(case, impl, name):
-    """the registered entry differs from what the method resolved on the instantiated class declares"""
-    entry = next((e for e in impl.get('table', []) if e['name'] == name), None)
-    mdeps = dict((n, d) for n, d in impl.get('mdeps', []))
-    if entry is None or name not in mdeps:
-        return False
-    k, m = _definer(case, case['inst'], name)
-    if k == case['inst']:
-        return False        # the class's own entry is computed on the class itself
-    reg = sorted({(d[1], d[2]) for d in entry['deps']})
-    res = sorted({(d[0], d[1]) for d in mdeps[name]})
-    on_init = bool(m and m['dinfo'] and m['dinfo']['on_init'])
-    return reg != res or on_init != entry['on_init']
-
-
 def classify(case, impl, fail):
+    """one finding is left: a method depending on a value AND a Parameter attribute has one watcher per
+    kind, so a batch that changes both kinds calls it once per kind (the fixed defects — stale inherited
+    entries, function form with a duplicated Parameter — classify to None: regressions are violations)"""
     if fail.get('kind') != 'counterexample' or not isinstance(impl, dict):
         return None
     why = str(fail.get('why', ''))
     if 'model differs from implementation' in why:
-        return None         # not the known behaviour (the model reproduces every known finding exactly)
+        return None         # not the known behaviour (the model reproduces the known finding exactly)
     m = _CALLS.search(why)
     if m:
         step, name, exp, got = int(m.group(1)), m.group(2), int(m.group(3)), int(m.group(4))
-        fn = next((f for f in case['fns'] if f[0] == name), None)
-        if fn is not None:
-            if len(set(fn[1])) < len(fn[1]) and exp == 1 and 1 < got <= len(fn[1]):
-                return 'function-form-duplicate-parameter'
+        if any(f[0] == name for f in case['fns']):
             return None
-        if _stale(case, impl, name):
-            return 'inherited-entry-stale-deps'
         mdeps = dict((n, d) for n, d in impl.get('mdeps', []))
+        entry = next((e for e in impl.get('table', []) if e['name'] == name), None)
+        if entry is None or sorted({(d[1], d[2]) for d in entry['deps']}) != sorted({(d[0], d[1]) for d in mdeps.get(name, [])}):
+            return None     # registered dependencies differ from those of the resolved method: not this finding
         whats = {d[1] for d in mdeps.get(name, [])}
         op = case['ops'][step] if step < len(case['ops']) else {}
         if op.get('op') == 'batch' and exp == 1 and 1 < got <= len(whats):
             return 'value-and-slot-two-groups'
-        return None
-    m = _INIT.search(why)
-    if m and _stale(case, impl, m.group(1)):
-        return 'inherited-entry-stale-deps'
     return None
